@@ -191,3 +191,19 @@ def ack_len(id_width, seq_width, crc: bool) -> int:
 def nak_len(id_width, seq_width, crc: bool, nreq: int, large: bool = False) -> int:
     w = 8 if large else 4
     return header_len(id_width, seq_width) + 1 + 2 * w + nreq * 2 * w + (2 if crc else 0)
+
+
+# ------------------------------------------------------------------ file contents
+def file_bytes(spec):
+    """spec: None (metadata-only) | bytes | {"pat": bytes, "size": n}.
+    Files up to len(pat) bytes are arbitrary; longer ones continue with a position-dependent
+    sequence so that misplaced, duplicated or missing segments change the content."""
+    if spec is None or isinstance(spec, (bytes, bytearray)):
+        return spec
+    pat, n = spec["pat"] or b"\x00", spec["size"]
+    if n <= len(pat):
+        return bytes(pat[:n])
+    L = len(pat)
+    return bytes((pat[i % L] + (i // L) * 7 + (i >> 8) * 13 + i) & 0xFF for i in range(n))
+
+
